@@ -244,6 +244,9 @@ type churnRunner struct {
 	removed chan uint64
 	nextUID uint64
 	other   int // schedules where the emitter's order differed from the code model (no verdict)
+	confuse int // schedule counter: every other one adds the foreign-signal pair under the subscriber's id
+	// foreign registrations under an id in use that the code acknowledged (it refuses them today)
+	confuseAccepted int
 }
 
 func c14Churn(args []string) {
@@ -348,6 +351,7 @@ func c14Churn(args []string) {
 	res.Distinct = len(shapes)
 	res.SetExtra("c14_churn_send_error_results", known)
 	res.SetExtra("c14_churn_other_order", k.other)
+	res.SetExtra("c14_churn_foreign_registration_under_used_id_acknowledged", k.confuseAccepted)
 	if len(scheds) > 0 {
 		res.Sample(map[string]interface{}{"schedule": scheds[len(scheds)/2]})
 	}
@@ -381,7 +385,18 @@ func (k *churnRunner) run(sc *cschedJ, tl *traceLog) (fails [][2]string) {
 		if n != "f" {
 			tl.put(map[string]interface{}{"k": "res", "c": n, "r": retRec(retJ{})})
 		}
+		// every other schedule: the subscriber also asks for ANOTHER signal of the object under the user id its
+		// property subscription holds, and - if that is acknowledged (the code refuses an id in use) - cancels it
+		// again.  Either way the property's subscribers are unchanged (PropertySteps.tla: no step), so every
+		// expectation of the schedule stands.
+		if n != "f" && k.confuse%2 == 1 {
+			if _, err := s.obj.RegisterEvent(id, boomID, s.uid); err == nil {
+				k.confuseAccepted++
+				s.obj.UnregisterEvent(id, boomID, s.uid)
+			}
+		}
 	}
+	k.confuse++
 	for _, st := range sc.Steps {
 		if st.St == "start" {
 			g.byVal[int32(st.N)] = st.A
